@@ -39,6 +39,8 @@ def classify_atoms(N):
             return ('t', x[2] // 8)
         if x[0] == 'ld' and x[3] == 8 and x[1][0] == 'mem' and isinstance(x[2], int) and x[2] % 8 == 0 and x[2] // 8 < N:
             return ('s', x[2] // 8)
+        if x[0] == 'ld' and x[1] == ('arg', 0) and x[3] == 8 and x[4] == 'i64' and isinstance(x[2], int) and x[2] % 8 == 0 and x[2] // 8 < N:
+            return ('s', x[2] // 8)          # an extent of the source object, as the constructor sees it (after through_closure)
         return None
     return atomize
 
@@ -76,6 +78,59 @@ def index_ok(kind, term, N):
                 return False, "index bit %d depends on in-domain coordinate bits" % pos
         return True, ""
     return None, "not decided"
+
+
+def make_resolver(h):
+    """value, in the converting constructor, of what the copy lambda loads through its closure (captured values, captured
+    references to the constructor's locals such as the source view)"""
+    sc = ir.Sym(h.func)
+    closures = [c.n for c in sc.calls if c.name == "_Znwm"]
+
+    # a small closure lives inside the std::function object itself (a local of the constructor handed to nd_map)
+    nd = [c for c in sc.calls if (c.name or "").startswith(relayout.NDMAP)]
+    inplace = nd[0].args[0][1][1] if len(nd) == 1 and not closures and nd[0].args and nd[0].args[0][0] == 'ptr' and nd[0].args[0][1][0] == 'alloca' else None
+
+    def resolve(t):
+        if not isinstance(t, tuple) or t[0] != 'ld':
+            return None
+        if t[1] == ('arg', 0) and inplace is not None and isinstance(t[2], int):
+            e = (nd[0].snap.get(0) or {}).get(t[2])          # the std::function object as it was when nd_map was called
+            return e[1] if e and e[0] == t[3] else None
+        if t[1][0] != 'mem':
+            return None
+        inner = t[1][1]
+        if inner[0] == 'ld' and inner[1] == ('arg', 0) and inner[2] == 0 and len(closures) == 1:
+            base, off = ('ret', closures[0]), 0
+        else:
+            p = resolve(inner)
+            if p is None or p[0] != 'ptr' or not isinstance(p[2], int):
+                return None
+            base, off = p[1], p[2]
+        if base[0] == 'alloca':
+            e = sc.mem.get(base[1], {}).get(off + t[2])
+            return e[1] if e and e[0] == t[3] else None
+        hit = [st for st in sc.stores if st.base == base and st.off == off + t[2] and st.size == t[3] and st.cond == ir.TRUE]
+        return hit[-1].val if hit else None
+    return resolve, sc
+
+
+def through_closure(term, resolve, memo=None):
+    """replace every load the lambda makes through its closure by the value the constructor put there (when it is a value)"""
+    if memo is None:
+        memo = {}
+    if not isinstance(term, tuple):
+        return term
+    if term in memo:
+        return memo[term]
+    r = None
+    if term[0] == 'ld' and term[1][0] == 'mem':
+        v = resolve(term)
+        if isinstance(v, tuple) and v[0] != 'ptr':
+            r = v
+    if r is None:
+        r = tuple(through_closure(x, resolve, memo) if isinstance(x, tuple) else x for x in term)
+    memo[term] = r
+    return r
 
 
 def check_lambda(rep, h):
@@ -213,6 +268,17 @@ def check_lambda(rep, h):
         d, s_ = next(iter(dsts)), next(iter(srcs))
         okd, whyd = index_ok(m["dst"], d, N)
         oks, whys = index_ok(m["src"], s_, N)
+        if okd is False or oks is False:
+            # values the lambda reads from objects the constructor built (a view that caches its strides, say) are taken from there
+            resolve, _sc = make_resolver(h)
+            if okd is False:
+                okd2, whyd2 = index_ok(m["dst"], through_closure(d, resolve), N)
+                if okd2:
+                    okd, whyd = okd2, whyd2
+            if oks is False:
+                oks2, whys2 = index_ok(m["src"], through_closure(s_, resolve), N)
+                if oks2:
+                    oks, whys = oks2, whys2
         if okd is None or (okd and oks is None):
             rep.undecided("C05.b %s: %s; cannot decide - re-confirm by reading" % (inst, whyd if okd is None else whys))
         elif not okd:
